@@ -142,7 +142,7 @@ func TestC18(t *testing.T) {
 		return
 	}
 
-	r.Rapid(t, "pairs", vf.N(10000, 4000000), func(t *rapid.T) {
+	r.Rapid(t, "pairs", vf.N(24000, 4000000), func(t *rapid.T) {
 		o := gen.Opts{WellFormed: true, SpecValid: true, NoHuge: true}
 		m := gen.Packet(t, model.CONNECT, o)
 		m.Username, m.HasUsername, m.Password, m.HasPassword = "", false, nil, false
